@@ -137,8 +137,10 @@ def units_matching(*patterns):
     return res
 
 
-def _run_factdump(unit, args, hdr, inst, overlays, out):
+def _run_factdump(unit, args, hdr, inst, overlays, out, nomain=False):
     cmd = [FACTDUMP, "--root", REPO, "--hdr", hdr, "-o", out]
+    if nomain:
+        cmd.append("--no-main")
     if inst:
         cmd += ["--inst", inst]
     for real, var in overlays:
@@ -148,7 +150,33 @@ def _run_factdump(unit, args, hdr, inst, overlays, out):
     return r.returncode, r.stderr
 
 
-def extract(units, hdr=".*", inst="", overlays=(), extra_args=None, jobs=None):
+def extract_split(units, hdr=".*", inst="", overlays=()):
+    """Like extract() but parses each header's functions only once: every unit
+    is dumped main-file-only, then a small cover of units is re-dumped for the
+    (matching) headers they include, each header assigned to one unit."""
+    main = extract(units, hdr="^$", inst=inst, overlays=overlays)
+    rx = re.compile(hdr)
+    covered = set()
+    # an overlaid header must be parsed from the overlay: handled by passing overlays through
+    jobs = []
+    for u, f in zip(units, main):
+        hs = sorted(h for h in f["deps"] if h != u and rx.search(h) and h not in covered and not h.endswith((".cpp", ".c")))
+        if hs:
+            covered.update(hs)
+            jobs.append((u, hs))
+    extra = []
+    if jobs:
+        from concurrent.futures import ThreadPoolExecutor
+        def one(j):
+            u, hs = j
+            hre = "^(" + "|".join(re.escape(h) for h in hs) + ")$"
+            return extract([u], hdr=hre, inst=inst, overlays=overlays, nomain=True, jobs=1)[0]
+        with ThreadPoolExecutor(max_workers=min(16, os.cpu_count() or 4)) as ex:
+            extra = list(ex.map(one, jobs))
+    return main + extra
+
+
+def extract(units, hdr=".*", inst="", overlays=(), extra_args=None, jobs=None, nomain=False):
     """Run factdump on each unit (cached by content of the unit and of every
     repository file it includes).  Returns list of fact dicts."""
     ensure_factdump()
@@ -159,10 +187,21 @@ def extract(units, hdr=".*", inst="", overlays=(), extra_args=None, jobs=None):
     results = {}
     for u in units:
         args = extra_args if extra_args is not None else db[u]["args"]
-        key = hashlib.sha1(json.dumps([u, args, hdr, inst, fdsig, [list(o) for o in overlays]]).encode()).hexdigest()
+        key = hashlib.sha1(json.dumps([u, args, hdr, inst, fdsig, [list(o) for o in overlays], nomain]).encode()).hexdigest()
         out = os.path.join(WORK, "facts", key + ".json")
         meta = out + ".meta"
         ok = False
+        # with overlays, the un-overlaid cache entry is still right for units that do not include an overlaid file
+        key0 = hashlib.sha1(json.dumps([u, args, hdr, inst, fdsig, [], nomain]).encode()).hexdigest()
+        out0 = os.path.join(WORK, "facts", key0 + ".json")
+        if overlays and os.path.exists(out0) and os.path.exists(out0 + ".meta"):
+            try:
+                m = json.load(open(out0 + ".meta"))
+                if not any(real in m or real == u for real, _ in overlays) and all(_sha1_file(p) == h for p, h in m.items()):
+                    results[u] = out0
+                    continue
+            except Exception:
+                pass
         if os.path.exists(out) and os.path.exists(meta) and not overlays:
             try:
                 m = json.load(open(meta))
@@ -176,7 +215,7 @@ def extract(units, hdr=".*", inst="", overlays=(), extra_args=None, jobs=None):
 
     def work(t):
         u, args, out, meta = t
-        rc, err = _run_factdump(u, args, hdr, inst, overlays, out)
+        rc, err = _run_factdump(u, args, hdr, inst, overlays, out, nomain)
         return u, rc, err, out, meta
 
     if todo:
